@@ -25,7 +25,10 @@ func cmdRand(p *lang.Process) error {
 
 	switch dt {
 	case types.Integer, types.Number:
-		max, _ := p.Parameters.Int(1)
+		max, err := maxParameter(p)
+		if err != nil {
+			return err
+		}
 		if max > 0 {
 			v = rand.Intn(max + 1)
 		} else {
@@ -36,7 +39,10 @@ func cmdRand(p *lang.Process) error {
 		v = rand.Float64()
 
 	case types.String, types.Generic:
-		max, _ := p.Parameters.Int(1)
+		max, err := maxParameter(p)
+		if err != nil {
+			return err
+		}
 		if max < 1 {
 			max = 20
 		}
@@ -58,4 +64,21 @@ func cmdRand(p *lang.Process) error {
 
 	_, err = p.Stdout.Write([]byte(s.(string)))
 	return err
+}
+
+// maxParameter returns the optional second parameter. A value that is given but is
+// not an integer (or does not fit one) is an error rather than silently becoming a
+// huge or default maximum
+func maxParameter(p *lang.Process) (int, error) {
+	if p.Parameters.Len() < 2 {
+		return 0, nil
+	}
+	max, err := p.Parameters.Int(1)
+	if err != nil {
+		return 0, err
+	}
+	if max == int(^uint(0)>>1) {
+		return 0, errors.New("maximum is too large")
+	}
+	return max, nil
 }
